@@ -8,8 +8,9 @@
    and attribute values, then the schema-directed conversion (names and namespaces to schema nodes, attributes to
    metadata). A printed document carries no default flags, so what comes back is the forest with the flags cleared
    ([clear_dflt]); [prune sel f] is the part of f the selection keeps.
-   Hypotheses: [tabs_okb] the side tables are well formed (identifiers as names, namespaces of plain characters, a
-   prefix stands for ONE namespace); [Canon] the forest is in the canonical form the library maintains (only used:
+   Hypotheses: [tabs_okb] the side tables are well formed (identifiers as names and prefixes, namespaces of plain
+   characters; two modules MAY share a prefix: since 91f0178 xml_print_meta() gives the second one a numbered prefix,
+   modelled by [uniq_prefix]); [Canon] the forest is in the canonical form the library maintains (only used:
    every node is an instance of a known schema node under its schema parent, terms have no children);
    [DocN sch t lexable]: no anydata, terms hold strings of characters the lexer accepts (the hypothesis of
    C01_xml_text_roundtrip), inner nodes no value, metadata instances have distinct keys of listed modules and values of
@@ -103,12 +104,14 @@ From LY Require Import JsonText JsonDoc JsonDocP.
    number tokens; booleans: true / false; empty: no value). [parents_ltb]: the sid of a node is larger than its parent's
    (pre-order numbering). *)
 
-(* with every node selected the state machine of printer_json.c prints exactly the RFC 7951 rendering *)
+(* for every node selection the state machine of printer_json.c prints exactly the RFC 7951 rendering of the selected
+   part (since f592167 also where the selection cuts through the instances of a leaf-list that carries metadata: trim
+   mode; before, Properties_C12_doc.C12_json_trim_refuted held - its witness is now C12_json_trim_regression) *)
 Theorem C01_json_print_is_rfc7951 :
-  forall sch t jk (SV : bytes -> Prop) f,
+  forall sch t jk (SV : bytes -> Prop) (sel : dnode -> bool) f,
     tabs_okb sch t = true -> parents_ltb sch = true -> Canon sch f -> Forall (JDocN sch t jk SV) f ->
-    json_print_all sch t jk f = json_doc sch t jk f.
-Proof. exact json_print_all_doc. Qed.
+    json_print sch t jk sel f = json_doc sch t jk (prune sel f).
+Proof. exact json_print_sel_doc. Qed.
 Print Assumptions C01_json_print_is_rfc7951.
 
 (* JSON, every node selected: parse (print f) = f without its default flags *)
@@ -119,29 +122,24 @@ Theorem C01_json_doc_roundtrip :
 Proof. exact json_print_roundtrip_proof. Qed.
 Print Assumptions C01_json_doc_roundtrip.
 
+(* JSON, any node selection (explicit, trim, report-all ...): exactly the selected part comes back *)
+Theorem C01_json_doc_roundtrip_sel :
+  forall sch t jk (sel : dnode -> bool) f,
+    tabs_okb sch t = true -> parents_ltb sch = true -> Canon sch f -> Forall (JDocN sch t jk SV_ly) f ->
+    json_parse sch t jk (json_print sch t jk sel f) = Some (clear_dflt (prune sel f)).
+Proof. exact json_print_roundtrip_sel_proof. Qed.
+Print Assumptions C01_json_doc_roundtrip_sel.
+
 (* the hypotheses as boolean checks *)
 Theorem C01_json_doc_roundtrip_checked :
-  forall sch t jk f,
+  forall sch t jk (sel : dnode -> bool) f,
     tabs_okb sch t = true -> parents_ltb sch = true -> canonb sch None f = true -> forallb (jdocb sch t jk jlexb) f = true ->
-    json_parse sch t jk (json_print_all sch t jk f) = Some (clear_dflt f).
+    json_parse sch t jk (json_print sch t jk sel f) = Some (clear_dflt (prune sel f)).
 Proof.
-  intros sch t jk f Ht Hp HC HD. apply json_print_roundtrip_proof; [exact Ht|exact Hp|apply canonb_spec, HC|].
+  intros sch t jk sel f Ht Hp HC HD. apply json_print_roundtrip_sel_proof; [exact Ht|exact Hp|apply canonb_spec, HC|].
   rewrite forallb_forall in HD. apply Forall_forall. intros x Hx. apply (jdocb_spec sch t jk jlexb SV_ly x jlexb_spec), HD, Hx.
 Qed.
 Print Assumptions C01_json_doc_roundtrip_checked.
-
-(* PARTIAL with respect to the node selection: for JSON only the selection of every node (report-all) is proved. For a
-   selection that is uniform on every run of (leaf-)list instances (explicit mode on validated trees) the correspondence
-   run checks on every generated case that libyang's bytes are the rendering of the selected part (answer field D); for
-   selections that are not (trim mode) the printer does NOT print the rendering of the selected part and its output is
-   not JSON: Properties_C12_doc.C12_json_trim_refuted, finding json-trim-leaflist-meta. What is proved about the
-   rendering itself holds for the selected part of any selection: *)
-Theorem C01_json_doc_roundtrip_sel_partial :
-  forall sch t jk (sel : dnode -> bool) f,
-    tabs_okb sch t = true -> Canon sch f -> Forall (JDocN sch t jk SV_ly) f ->
-    json_parse sch t jk (json_doc sch t jk (prune sel f)) = Some (clear_dflt (prune sel f)).
-Proof. exact json_doc_roundtrip_sel_proof. Qed.
-Print Assumptions C01_json_doc_roundtrip_sel_partial.
 
 (* non-vacuity: every JSON class (string with escapes and a multi-byte character, number, boolean, empty), a list with
    two instances, a leaf-list whose second instance carries metadata, metadata on a list instance and on a leaf; the state
@@ -171,5 +169,9 @@ Example C01_json_doc_roundtrip_example :
   tabs_okb exj_sch exj_tabs = true /\ canonb exj_sch None exj_forest = true /\
   forallb (jdocb exj_sch exj_tabs exj_kinds jlexb) exj_forest = true /\ parents_ltb exj_sch = true /\
   json_print_all exj_sch exj_tabs exj_kinds exj_forest = json_doc exj_sch exj_tabs exj_kinds exj_forest /\
-  json_parse exj_sch exj_tabs exj_kinds (json_print_all exj_sch exj_tabs exj_kinds exj_forest) = Some (clear_dflt exj_forest).
+  json_parse exj_sch exj_tabs exj_kinds (json_print_all exj_sch exj_tabs exj_kinds exj_forest) = Some (clear_dflt exj_forest) /\
+  (* a selection that drops the first leaf-list instance and the whole second list instance *)
+  (let sel := fun n => negb (beq_bytes (d_val n) []) || negb (isnil (d_ch n)) && negb (beq_bytes (d_val (hd n (d_ch n))) [55]) in
+   json_parse exj_sch exj_tabs exj_kinds (json_print exj_sch exj_tabs exj_kinds sel exj_forest) = Some (clear_dflt (prune sel exj_forest)) /\
+   length (prune sel exj_forest) = 1%nat).
 Proof. vm_compute. repeat split. Qed.
